@@ -474,6 +474,16 @@ impl HistExec {
             }
             Op::Prepopulate { entries } => {
                 let out = format!("{}/{}", self.root, self.out_rel());
+                if entries.iter().any(|e| e.path == ".") {
+                    // the output "directory" is a file somebody put there
+                    let _ = std::fs::remove_dir_all(&out);
+                    let _ = std::fs::remove_file(&out);
+                    if let Some(parent) = Path::new(&out).parent() {
+                        let _ = std::fs::create_dir_all(parent);
+                    }
+                    std::fs::write(&out, b"not a directory\n").expect("target file");
+                    return;
+                }
                 std::fs::create_dir_all(&out).expect("target dir");
                 for e in entries {
                     let p = Path::new(&out).join(&e.path);
@@ -582,7 +592,7 @@ impl HistExec {
         // success only over the exact tree.
         let obstacle = {
             let out_rel = self.out_rel();
-            let mut found = false;
+            let mut found = before.get(&out_rel).map(|n| !n.dir).unwrap_or(false);
             for f in &files {
                 let p = format!("{out_rel}/{}", mirrored(&f.path, &self.layout));
                 if before.get(&p).map(|n| n.dir).unwrap_or(false) {
@@ -645,6 +655,14 @@ impl HistExec {
                         c.arg("-d").arg("--no-module-path");
                     }
                     c.stdin(std::process::Stdio::null()).stdout(std::process::Stdio::null()).stderr(std::process::Stdio::null());
+                    // sometimes a standard error that cannot be written (full disk behind a
+                    // redirected log): a failure must still be a failure.  Only without logging
+                    // flags — a logger that cannot log is allowed to complain.
+                    if hash_seed % 13 == 0 && hash_seed % 3 != 0 && hash_seed % 4 != 1 && hash_seed % 7 != 0 && hash_seed % 11 != 0 {
+                        if let Ok(f) = std::fs::OpenOptions::new().write(true).open("/dev/full") {
+                            c.stderr(f);
+                        }
+                    }
                     match c.status() {
                         Ok(st) => {
                             self.stats.cli_runs += 1;
@@ -823,8 +841,9 @@ impl HistExec {
                             ));
                         }
                     }
+                    // it may remove (or leave cut short) its OWN outputs, nothing else
                     for p in before.keys() {
-                        if !after.contains_key(p) && !(p.starts_with(&format!("{out_rel}/")) && p.ends_with(".py")) {
+                        if !after.contains_key(p) && !allowed_files.contains(p) {
                             step_viol.push(Viol::new("wrote_outside_mirror", step, format!("deleted by a run that then failed: {p}")));
                         }
                     }
